@@ -86,6 +86,8 @@ def _kernel_chunk(arg):
         if real and order[0] == 4 and rng.random() < 0.7:
             order = (int(rng.integers(1, 4)), order[1])  # the N3LO grids are slow in interpreter mode
         nf = int(rng.integers(3, 7))
+        if real and order[0] == 4:
+            nf = min(nf, 5)  # ekore refuses nf=6 at N3LO ("nf=6 is not available at N3LO"): a clean refusal, nothing to compare
         it = int(rng.integers(1, 41))
         a0, a1, as_list, ah = _steps(rng, it)
         bet = po.betas(nf, order[0])
@@ -225,7 +227,7 @@ def _e2e(ck):
         Rq = (w * Eq[K2][0] - Eq[K1][0]) / (w - 1)
         Rd = (w * Ed[(1e-8, K2)][0] - Ed[(1e-8, K1)][0]) / (w - 1)
         dr = float(np.abs(Rd - Rq).max())
-        bound = max(0.05 * D[(1e-8, K2)], 20 * qerr)
+        bound = 2.0 * qerr  # twice the integration error the two solves report themselves (observed: 1e-8..6e-7, i.e. 30x below)
         ck.case(("e2e-limit", n, nfk), nontrivial=nontriv, sample=dict(e2e="extrapolated-limit", order=[n, 1], nf=nfk, K=[K1, K2], diff=dr, bound=bound, D_last=D[(1e-8, K2)]))
         ck.hit("e2e_ladder")
         ck.extra.setdefault("e2e_summary", []).append(dict(order=[n, 1], nf=nfk, iterations=Ks, D={f"{a:g}/{K}": v for (a, K), v in D.items()}, quad_error=qerr, extrapolated_diff=dr, extrapolated_bound=bound, scale=scale))
